@@ -39,7 +39,8 @@ class Harness:
     """one symbolic Router instance with stubbed environment"""
 
     def __init__(self, width=512, mib=None, mib_sym=(), table="stub", geom="free", greedy="free", area_size="free",
-                 ego="sym", fmode="real", unroll=4, **mib_kw):
+                 ego="sym", fmode="real", unroll=4, geom_zero=False, **mib_kw):
+        self.geom_zero = geom_zero          # free geometry also raises ZeroDivisionError for an area with a zero distance (opt-in: receive-path VCs)
         self.I = I = make("bv", width, fmode, unroll)
         self.R, self.ll, self.got = real_router(mib, **mib_kw)
         self.cb = self.R.indication_callback
@@ -110,6 +111,13 @@ class Harness:
             if isinstance(v, EnumSym):
                 return ("e", v.cls.__name__, v.val.get_id())
             return ("c", repr(v))
+        # contract of the real function: it divides by both distances of the area - a zero distance raises ZeroDivisionError (the value itself is free: C07)
+        area = a[2] if len(a) > 2 and isinstance(a[2], Obj) else None
+        if getattr(self, "geom_zero", False) and area is not None and "a" in area.fields and "b" in area.fields:
+            zero = z3.Or(it._lb(it.equal(area.fields["a"], 0)), it._lb(it.equal(area.fields["b"], 0)))
+            if it.pybool(zero) is not False:
+                it.raises.append((z3.And(pc, zero), ZeroDivisionError))
+                pc = z3.And(pc, z3.Not(zero))
         kk = tuple(key(x) for x in a[1:])
         cache = self.__dict__.setdefault("_fcache", {})
         if kk in cache:
